@@ -46,6 +46,14 @@ def check(ctx):
     _fuse(ctx, opt)
     _fuse_linear_task_spec(ctx, ts)
     _resolve_aliases(ctx, ts)
+    # ---------------- renamed fused keys must be fresh: neither a key of the input graph nor one already produced
+    fl_ = opt.func("fuse_linear") if "opt" in dir() else ctx.model.module("dask/optimization.py").func("fuse_linear")
+    ir = [x for x in find("is_renamed = M_v", fl_) if not isinstance(x[1]["M_v"], ast.Constant)]
+    ok = len(ir) == 1 and unparse(ir[0][1]["M_v"]) == "new_key is not None and new_key not in dsk and (new_key not in rv)"
+    ctx.ob("DOM.rename.fresh-key", fl_, "fuse_linear renames a chain only if the new key is in neither the input graph nor the result so far", ok, "" if ok else "two chains that get the same fused name overwrite each other: a requested key then evaluates to the other chain's value")
+    from .C13 import fused_name_hash
+
+    fused_name_hash(ctx)
 
 
 def _cull(ctx, f, style):
